@@ -63,6 +63,7 @@ impl Scheduler {
                         task.set_err(&err.into());
                         let _ = ctx.emit_error();
                     });
+                    task.proc().persist();
                 }
                 Signal::Terminal => {
                     #[cfg(acts_verif)]
